@@ -47,6 +47,11 @@ func (ck LineChecker) CheckTrailingWhitespace() {
 	if trimmedLen == len(text) {
 		return
 	}
+	if hasSuffix(text[:trimmedLen], "\\") {
+		// Without the whitespace, the backslash would continue the
+		// line, joining it with the following line.
+		return
+	}
 
 	fix := ck.line.Autofix()
 	fix.Notef("Trailing whitespace.")
